@@ -358,7 +358,7 @@ func (w *world) opResolve(op *Op) {
 	}
 	wasEmpty := w.alive() == 0
 	li := addrIdx(op.Addrs)
-	ccs := balancer.ClientConnState{ResolverState: resolver.State{Addresses: addrSets[li]}}
+	ccs := balancer.ClientConnState{ResolverState: resolver.State{Addresses: append([]resolver.Address(nil), addrSets[li]...)}} // a resolver hands out a fresh list every time
 	if op.SC {
 		ccs.ResolverState.ServiceConfig = &serviceconfig.ParseResult{}
 		w.labels["resolve-with-service-config"]++
